@@ -24,6 +24,11 @@ RULE = ('exhaustive small scope (recording length x window length x all sorted s
         '0..3, plus random sequences with a chunk of another dtype / other trailing dimensions / one dimension '
         'less (clause 27). Stage 4: one export in 13 omits the unit factor (default 1: raw windows); the array returned by '
         "extract_waveforms / _extract_waveform must have the recording's sample type. "
+        'Stage 5: recordings of up to 400 channels with stored channel rows of 1-65 ids in any order (best channel first then '
+        'by distance, decreasing, -1 inside, a channel twice) and store spike ids up to 2^17 in any order, queried on the row '
+        'sorted / as stored / every channel; multi-file flat recordings of up to 12 files whose names in the order GIVEN are not '
+        'in lexicographic order (numbered parts t9/t10/t11, descending names, parts in different directories, arbitrary names '
+        'and raw extensions), passed as list or tuple of Path or str, also as the dat_path list of TemplateModel. '
         'Non-trivial = at least one spike whose window overflows the recording, touches a chunk/file '
         'boundary or uses a -1 channel, or (model route) a store is present; distinct = distinct abstract input.')
 EXHAUSTIVE = {'quick': True, 'thorough': True}
@@ -286,6 +291,9 @@ def _model_case(j, rng, nrmax=14):
     cs = rng.randint(1, nr)
     n = rng.randint(2, 6)
     nc = rng.randint(2, 4)
+    wide = j % 5 == 3                          # stage 5: a probe with many channels, stored rows of few large ids
+    if wide:
+        nc = rng.choice([9, 17, 33, 70])
     samples = _biased_samples(rng, nr, sizes, cs, n, rng.randint(2, 6))
     ns = len(samples)
     mode = _rot(['raw', 'store+raw', 'store', 'store+raw', 'raw', 'save', 'store', 'none'], j)
@@ -299,7 +307,10 @@ def _model_case(j, rng, nrmax=14):
         k = rng.randint(1, ns)
         stored = sorted(rng.sample(range(ns), k))
         w = rng.randint(1, 3)
-        inp['store'] = {'via': 'export', 'ids': stored, 'table': _table(rng, stored, nc, w),
+        if wide:
+            w = rng.choice([2, 3, 4, 6])
+        inp['store'] = {'via': 'export', 'ids': stored,
+                        'table': [_wide_row(rng, nc, w) for _ in stored] if wide else _table(rng, stored, nc, w),
                         'factor': _rot(FKEYS, j // 4)}
     elif mode == 'save':
         inp['store'] = {'via': 'save', 'nst': rng.choice([1, 2, 50]), 'mnc': rng.choice([None, 1, 2, 14]),
@@ -323,8 +334,163 @@ def _model_case(j, rng, nrmax=14):
         rng.shuffle(qch)
         if j % 17 == 9:
             qch.append(rng.choice(real))
+        if wide and inp['store'] and inp['store']['via'] == 'export' and j % 2:
+            # the channels of a stored row, in increasing order / as stored
+            row = [c for c in dict.fromkeys(rng.choice(inp['store']['table'])) if c >= 0]
+            if row:
+                qch = sorted(row) if j % 4 == 1 else row
         inp['q_ch'] = qch
+    if len(sizes) > 1 and j % 2:               # stage 5: names of the raw files, given in an order that is not the sorted one
+        nm = _names(rng, len(sizes))
+        if nm:
+            inp['names'] = nm
+        if j % 4 == 3:
+            inp['pkind'] = 'str'
     return {'kind': 'model', 'inp': inp}
+
+
+# ---- stage 5: axes drawn after the fourth (indirect) seeding round ------------------------------------
+
+RAW_EXT = ['.bin', '.dat', '.raw']
+TWO_NAMES = [['t9.bin', 't10.bin'], ['b.dat', 'a.dat'], None, ['d2/x.raw', 'd1/x.raw'], ['f1.bin', 'f0.bin'],
+             ['B.bin', 'a.bin'], ['a/z.bin', 'z.bin']]
+PKINDS = ['path', 'str', 'tuple', 'path', 'strtuple']
+
+
+def _names(rng, k, scheme=None):
+    """k relative file names for the parts of a flat recording, in the order the parts are GIVEN to the reader.
+    The given order is in general NOT the lexicographic order of the names / paths: numbered parts that cross a
+    power of ten (t9, t10, t11), descending names, parts in different directories, shuffled numbers, arbitrary
+    distinct names with mixed case / digits / extensions.  None = the default names f0.bin, f1.bin, ..."""
+    if scheme is None:
+        scheme = rng.randrange(7)
+    ext = rng.choice(RAW_EXT)
+    if scheme == 0:
+        return None
+    if scheme == 1:
+        start = rng.choice([8, 9, 98, 99, 999]) - rng.randint(0, max(k - 2, 0))
+        return ['rec_g0_t%d%s' % (max(start, 0) + j, ext) for j in range(k)]
+    if scheme == 2:
+        return ['p_%s%s' % (chr(ord('z') - j), ext) for j in range(k)]
+    if scheme == 3:
+        return ['run%02d/part%s' % (k - j, ext) for j in range(k)]
+    if scheme == 4:
+        perm = list(range(k))
+        rng.shuffle(perm)
+        return ['f%02d%s' % (perm[j], ext) for j in range(k)]
+    if scheme == 5:          # same file name in directories whose names sort the other way round, one part at top level
+        return ['%s/x%s' % (chr(ord('a') + (k - 1 - j)), ext) if j else 'zz%s' % ext for j in range(k)]
+    out = []
+    while len(out) < k:
+        nm = ''.join(rng.choice('abAB019_') for _ in range(rng.randint(1, 3))) + rng.choice(RAW_EXT)
+        if nm.lower() not in [o.lower() for o in out]:
+            out.append(nm)
+    return out
+
+
+def _lex_sorted(names, k, default='f%d.bin'):
+    names = list(names)[:k] if names else [default % j for j in range(k)]
+    return names == sorted(names)
+
+
+def _with_names(case, rng, j, scheme=None):
+    """give the parts of a multi-file flat recording drawn names and a drawn kind of path argument"""
+    inp = case['inp']
+    if len(inp['sizes']) > 1 and inp.get('backend', 'flat') in ('flat',):
+        nm = _names(rng, len(inp['sizes']), scheme)
+        if nm:
+            inp['names'] = nm
+        pk = _rot(PKINDS, j)
+        if pk != 'path':
+            inp['pkind'] = pk
+    return case
+
+
+def _wide_row(rng, nc, w):
+    """one stored channel row of a recording with MANY channels (ids large compared with the row length): best channel
+    first then its neighbours by distance (how save_spikes_subset_waveforms / KiloSort order them: not increasing), a
+    random order, an increasing order, or decreasing; sometimes a -1 inside or at the end"""
+    style = rng.randrange(5)
+    k = min(w, nc)
+    if style == 0:
+        best = rng.randrange(nc)
+        row = sorted(range(nc), key=lambda c: (abs(c - best), c))[:k]
+    elif style == 1:
+        row = rng.sample(range(nc), k)
+    elif style == 2:
+        row = sorted(rng.sample(range(nc), k))
+    elif style == 3:
+        row = sorted(rng.sample(range(nc), k), reverse=True)
+    else:                                   # the two ends of the probe and something in between
+        row = ([nc - 1, 0] + rng.sample(range(1, nc - 1), max(k - 2, 0)))[:k] if nc > 2 else rng.sample(range(nc), k)
+    row += [-1] * (w - len(row))
+    r = rng.random()
+    if r < 0.15:
+        row[rng.randrange(w)] = -1
+    elif r < 0.25:
+        row[-1] = -1
+    elif r < 0.3 and w > 1:
+        row[rng.randrange(w)] = row[rng.randrange(w)]          # a channel stored twice
+    return row
+
+
+WIDE_NC = [9, 12, 17, 33, 64, 65, 96, 130, 384, 385]
+
+
+def _wide_ids(rng, ns, j):
+    """store spike ids: few and LARGE (up to 2^16 and beyond), increasing or not"""
+    hi = _rot([3 * ns + 4, 40 * ns + 9, 1000, 70000, 2 ** 17 + 5], j)
+    ids = rng.sample(range(0, hi), ns)
+    if j % 7 == 2:
+        ids[rng.randrange(ns)] = rng.choice([65535, 65536, 2 ** 17 + 4, 32767, 32768])
+        ids = list(dict.fromkeys(ids))
+        while len(ids) < ns:
+            x = rng.randrange(hi)
+            if x not in ids:
+                ids.append(x)
+    o = j % 3
+    return sorted(ids) if o == 0 else sorted(ids, reverse=True) if (o == 1 and j % 2) else ids
+
+
+def _wide_store_case(j, rng, nrmax=8):
+    """look-up in a subset store of a many-channel recording (stage 5): stored rows of w << nc channels with large ids
+    in any order, store ids few and large in any order, queried on the row itself / the row sorted / every channel /
+    a mixture of stored and other channels"""
+    nr = rng.randint(1, nrmax)
+    sizes = _rand_sizes(rng, nr, 2)
+    cs = rng.randint(1, nr)
+    n = rng.randint(1, 5)
+    nc = _rot(WIDE_NC, j) if j % 4 else rng.randint(5, 400)
+    w = rng.choice([1, 2, 3, 4, 4, 6, 8, 12, 32]) if j % 9 else rng.choice([64, 65])
+    w = min(w, 65)
+    samples = _biased_samples(rng, nr, sizes, cs, n, rng.randint(1, 4))
+    base = _export_case(j, rng, sizes, nc, cs, samples, n)
+    inp = base['inp']
+    inp['w'] = w
+    inp['spikes'] = [[s, _wide_row(rng, nc, w)] for s in samples]
+    inp.pop('amp', None)
+    ns = len(samples)
+    inp['ids'] = _wide_ids(rng, ns, j)
+    qn = rng.randint(1, ns + 1)
+    inp['q_ids'] = [rng.choice(inp['ids']) for _ in range(qn)] if j % 3 else rng.sample(inp['ids'], min(qn, ns))
+    row = rng.choice(inp['spikes'])[1]
+    real = list(dict.fromkeys(c for c in row if c >= 0))
+    m = j % 5
+    if m == 0 and real:
+        qch = sorted(real)
+    elif m == 1:
+        qch = list(dict.fromkeys(row)) if real else [rng.randrange(nc)]
+    elif m == 2 and nc <= 130:
+        qch = list(range(nc))
+    else:
+        others = rng.sample(range(nc), min(nc, rng.randint(0, 4)))
+        qch = list(dict.fromkeys(rng.sample(real, rng.randint(0, len(real))) + others)) + [-1] * rng.choice([0, 0, 1])
+        rng.shuffle(qch)
+        if not qch:
+            qch = [rng.randrange(nc)]
+    inp['q_ch'] = qch
+    inp['qkind'] = _rot(CKINDS, j)
+    return _with_names({'kind': 'store', 'inp': inp}, rng, j)
 
 
 CORPUS = [
@@ -462,6 +628,42 @@ CORPUS = [
     {'kind': 'npy', 'inp': {'shape': [0, 1, 2], 'dtype': 'float64', 'chunks': []}},
     {'kind': 'npy', 'inp': {'shape': [2, 1, 2], 'dtype': 'float32', 'chunks': [
         {'shape': [1, 2], 'dtype': 'float32', 'v0': 5}, {'shape': [1, 1, 2], 'dtype': 'float32', 'v0': 7}]}},
+    # ---- stage 5 (indirect seeded changes C03-m10 / C03-m11) ----
+    # a store of a 96-channel recording: rows of 4 channels, best channel first then neighbours (NOT increasing, ids
+    # large compared with the row length), store ids few, large (beyond 2^16) and not increasing; queried on a row in
+    # increasing order, as stored, and on channels the row does not hold
+    {'kind': 'store', 'inp': {'sizes': [4, 3], 'nc': 96, 'cs': 3, 'backend': 'flat', 'dtype': 'int16',
+                              'spikes': [[0, [70, 3, 41, 12]], [3, [5, 4, 6, 3]], [6, [95, 94, -1, 0]]], 'n': 3, 'w': 4,
+                              'factor': 'f1', 'sdtype': 'int64', 'cache': False, 'threads': 1, 'ids': [70000, 12, 65536],
+                              'q_ids': [65536, 70000, 12, 70000], 'q_ch': [3, 12, 41, 70, 94, 0], 'qkind': 'i64'}},
+    {'kind': 'store', 'inp': {'sizes': [5], 'nc': 384, 'cs': 5, 'backend': 'flat', 'dtype': 'float32',
+                              'spikes': [[1, [200, 199, 201, 198, 383, 0]], [4, [10, 300, 20, 80, -1, 7]]], 'n': 2, 'w': 6,
+                              'factor': 'f25', 'sdtype': 'uint64', 'cache': False, 'threads': 1, 'ids': [900, 4],
+                              'q_ids': [4, 900], 'q_ch': [10, 300, 20, 80, -1, 7, 200, 383], 'qkind': 'list'}},
+    # a flat recording of three files of different lengths whose names, in the order GIVEN, are not in lexicographic
+    # order (numbered parts t9, t10, t11); windows inside each file and across both file bounds
+    {'kind': 'extract', 'inp': {'sizes': [3, 2, 4], 'nc': 2, 'cs': 4, 'samples': [0, 2, 3, 4, 5, 8], 'n': 3, 'chans': [1, 0],
+                                'names': ['rec_g0_t9.bin', 'rec_g0_t10.bin', 'rec_g0_t11.bin'],
+                                'cfgs': [['flat', 'int16', 'int64', 'i64'], ['flat', 'float32', 'uint64', 'list']]}},
+    # ... two files given in descending name order, as str paths in a tuple; parts in directories that sort the other way
+    {'kind': 'export', 'inp': {'sizes': [2, 3], 'nc': 2, 'cs': 2, 'backend': 'flat', 'dtype': 'int16',
+                               'spikes': [[0, [0, 1]], [1, [1, 0]], [2, [0, -1]], [4, [1, 1]]], 'n': 2, 'w': 2, 'factor': 'f1',
+                               'sdtype': 'int64', 'cache': False, 'threads': 1, 'names': ['b.dat', 'a.dat'],
+                               'pkind': 'strtuple'}},
+    {'kind': 'export', 'inp': {'sizes': [3, 3], 'nc': 2, 'cs': 4, 'backend': 'flat', 'dtype': 'float64',
+                               'spikes': [[0, [0, 1]], [3, [1, 0]], [5, [1, 1]]], 'n': 3, 'w': 2, 'factor': 'fh',
+                               'sdtype': 'uint32', 'cache': True, 'threads': 1, 'names': ['run2/part.raw', 'run1/part.raw']}},
+    # ... through TemplateModel (dat_path = a list of raw files): raw route, and the store exported from those traces
+    {'kind': 'model', 'inp': {'sizes': [4, 3], 'nc': 3, 'cs': 3, 'dtype': 'int16', 'samples': [0, 2, 4, 6], 'n': 4,
+                              'extra': 1, 'cmrot': 1, 'offset': 0, 'tdtype': 'uint64', 'raw': True, 'store': None,
+                              'q_ids': [3, 0, 2], 'q_ch': [2, 0, 1], 'qkind': 'list',
+                              'names': ['rec_t9.dat', 'rec_t10.dat']}},
+    {'kind': 'model', 'inp': {'sizes': [2, 2, 3], 'nc': 33, 'cs': 3, 'dtype': 'int16', 'samples': [0, 2, 4, 6], 'n': 4,
+                              'extra': 0, 'cmrot': 0, 'offset': 0, 'tdtype': 'int64', 'raw': False,
+                              'store': {'via': 'export', 'ids': [0, 2, 3], 'table': [[20, 3, 31], [5, 32, 0], [16, 15, 17]],
+                                        'factor': 'f25'},
+                              'q_ids': [3, 0, 2, 0], 'q_ch': [0, 3, 5, 15, 16, 17, 20, 31, 32], 'qkind': 'i32',
+                              'names': ['c.dat', 'b.dat', 'a.dat'], 'pkind': 'str'}},
 ]
 
 
@@ -472,6 +674,8 @@ def generate(tier, rng):
             cases += _random_cases(i, rng, 30, 7)
         for i in range(600):
             cases.append(_model_case(i, rng, 20))
+        for i in range(1200):
+            cases.append(_wide_store_case(i, rng, 12))
         for i in range(300):
             nr = rng.randint(2, 30)
             sizes = _rand_sizes(rng, nr, 3)
@@ -496,6 +700,8 @@ def generate(tier, rng):
                     cases.append({'kind': 'extract', 'inp': {
                         'sizes': sizes, 'nc': nc, 'cs': 1 + i % nr, 'samples': samples, 'n': n, 'chans': chans,
                         'cfgs': _cfgs(i, len(sizes) == 1)}})
+                    if len(sizes) == 2 and i % 2 and _rot(TWO_NAMES, i // 2):
+                        cases[-1]['inp']['names'] = _rot(TWO_NAMES, i // 2)
     # ---- exhaustive small scope: export through flat / array readers, every split and chunk length
     nrmax, nmax, kmax = (5, 5, 2) if quick else (7, 5, 3)
     for nr in range(1, nrmax + 1):
@@ -504,7 +710,14 @@ def generate(tier, rng):
                 for n in range(1, nmax + 1):
                     for samples in _multisets(nr, kmax if nr <= 6 else 2):
                         i += 1
-                        cases.append(_export_case(i, rng, sizes, 2, cs, samples, n))
+                        c = _export_case(i, rng, sizes, 2, cs, samples, n)
+                        if len(sizes) == 2 and i % 2:      # stage 5: file names rotated on the implementation side
+                            nm = _rot(TWO_NAMES, i // 2)
+                            if nm:
+                                c['inp']['names'] = nm
+                            if (i // 2) % 3 == 1:
+                                c['inp']['pkind'] = _rot(PKINDS[1:], i // 6)
+                        cases.append(c)
     # ---- compressed backend: every chunk length, spikes on every position
     nrmax, ns_ = (6, (2, 3)) if quick else (8, (1, 2, 3, 4, 5))
     for nr in range(1, nrmax + 1):
@@ -523,6 +736,9 @@ def generate(tier, rng):
         samples = _biased_samples(rng, nr, sizes, cs, n, rng.randint(1, 4))
         base = _export_case(i + j, rng, sizes, nc, cs, samples, n)
         cases.append(_store_case(j, rng, base))
+    # ---- stage 5: stores of many-channel recordings (rows of few large channel ids in any order, large store ids)
+    for j in range(240 if quick else 4000):
+        cases.append(_wide_store_case(j, rng))
     # ---- TemplateModel.get_waveforms on dataset directories (raw / store / both / neither)
     for j in range(320 if quick else 4000):
         cases.append(_model_case(j, rng))
@@ -567,21 +783,25 @@ def generate(tier, rng):
 def _random_cases(j, rng, nrmax, nmax):
     out = []
     nr = rng.randint(1, nrmax)
-    sizes = _rand_sizes(rng, nr, 3)
+    many = j % 10 == 7 and nr >= 4             # stage 5: a recording made of many files (up to 12: f10.bin sorts before f2.bin)
+    sizes = _rand_sizes(rng, nr, 12 if many else 3)
     cs = rng.randint(1, nr)
     n = rng.randint(1, nmax)
-    nc = rng.randint(1, 4)
+    nc = rng.randint(1, 4) if j % 6 != 4 else rng.choice(WIDE_NC)
     samples = _biased_samples(rng, nr, sizes, cs, n, rng.randint(0, 6))
     chans = [rng.choice([-1] + list(range(nc)) * 2) for _ in range(rng.randint(1, 5))]
-    out.append({'kind': 'extract', 'inp': {'sizes': sizes, 'nc': nc, 'cs': cs, 'samples': samples, 'n': n,
-                                           'chans': chans, 'cfgs': _cfgs(j, len(sizes) == 1)}})
+    scheme = None if j % 3 == 1 else 0         # one multi-file case in three: drawn file names / kind of path argument
+    out.append(_with_names({'kind': 'extract', 'inp': {'sizes': sizes, 'nc': nc, 'cs': cs, 'samples': samples, 'n': n,
+                                                       'chans': chans, 'cfgs': _cfgs(j, len(sizes) == 1)}},
+                           rng, j, scheme))
     backend = None
     if len(sizes) == 1 and j % 4 == 0 and nr / cs <= 20:
         backend = 'cbin'
-    base = _export_case(j, rng, sizes, nc, cs, samples, n, backend=backend)
+    base = _with_names(_export_case(j, rng, sizes, nc, cs, samples, n, backend=backend), rng, j + 1, scheme)
     out.append(base)
     if samples:
-        out.append(_store_case(j, rng, _export_case(j + 1, rng, sizes, nc, cs, samples, n, backend=backend)))
+        out.append(_with_names(_store_case(j, rng, _export_case(j + 1, rng, sizes, nc, cs, samples, n, backend=backend)),
+                               rng, j + 2, scheme))
     return out
 
 
@@ -613,7 +833,21 @@ def _amp(dtype, nr, nc):
     return 1
 
 
-def _traces(np, d, backend, sizes, nc, cs, dtype, threads=1, amp=1):
+def _part_paths(d, k, names=None, default='f%d.bin'):
+    """absolute paths of the k parts of a flat recording IN THE ORDER THE PARTS ARE GIVEN (stage 5): names = relative
+    file names (possibly inside sub-directories, created here) or None = the default numbered names"""
+    out = []
+    for j in range(k):
+        rel = names[j] if names else default % j
+        p = os.path.join(d, *rel.split('/'))
+        if os.path.dirname(p) != d:
+            os.makedirs(os.path.dirname(p), exist_ok=True)
+        out.append(p)
+    assert len(set(out)) == k
+    return out
+
+
+def _traces(np, d, backend, sizes, nc, cs, dtype, threads=1, amp=1, names=None, pkind='path'):
     """-> (traces object, closer, chunk info or None)"""
     from phylib.io.traces import get_ephys_reader
     from pathlib import Path
@@ -627,11 +861,12 @@ def _traces(np, d, backend, sizes, nc, cs, dtype, threads=1, amp=1):
         return get_ephys_reader(arr, sample_rate=rate), None, None
     if backend == 'flat':
         paths, acc = [], 0
-        for j, s in enumerate(sizes):
-            p = os.path.join(d, 'f%d.bin' % j)
+        for p, s in zip(_part_paths(d, len(sizes), names), sizes):
             arr[acc:acc + s].tofile(p)
             acc += s
-            paths.append(Path(p))
+            paths.append(p if pkind in ('str', 'strtuple') else Path(p))
+        if pkind in ('tuple', 'strtuple'):
+            paths = tuple(paths)
         return get_ephys_reader(paths, sample_rate=rate, dtype=np.dtype(dtype), n_channels=nc), None, None
     if backend == 'cbin':
         import mtscomp
@@ -677,7 +912,7 @@ def _factor(np, key):
 def _do_export(np, d, i):
     from phylib.io.traces import export_waveforms
     tr, close, chunkinfo = _traces(np, d, i['backend'], i['sizes'], i['nc'], i['cs'], i['dtype'], i.get('threads', 1),
-                                   amp=i.get('amp', 1))
+                                   amp=i.get('amp', 1), names=i.get('names'), pkind=i.get('pkind') or 'path')
     try:
         samples = _samples(np, [s for s, _ in i['spikes']], i['sdtype'])
         table = np.array([r for _, r in i['spikes']], dtype=np.int64).reshape(len(i['spikes']), i['w'])
@@ -703,7 +938,8 @@ def run_case(case):
                 try:
                     sub = os.path.join(d, 'c%d' % len(results))
                     os.mkdir(sub)
-                    tr, close, _ = _traces(np, sub, backend, i['sizes'], i['nc'], i['cs'], dtype)
+                    tr, close, _ = _traces(np, sub, backend, i['sizes'], i['nc'], i['cs'], dtype,
+                                           names=i.get('names'), pkind=i.get('pkind') or 'path')
                     try:
                         if ckind == 'none':
                             # channel_ids=None (every channel): only _extract_waveform accepts it
@@ -1026,8 +1262,14 @@ def dist(case, obs):
             out += ['npy.outcome=' + r[0] for r in obs[1]]
         return out
     nr = sum(i['sizes'])
-    out = ['kind=' + k, 'files=%d' % len(i['sizes']), 'len=%s' % _bucket(nr), 'window=%s' % ('odd' if i['n'] % 2 else 'even'),
+    out = ['kind=' + k, 'files=%s' % _bucket(len(i['sizes'])), 'len=%s' % _bucket(nr), 'window=%s' % ('odd' if i['n'] % 2 else 'even'),
            'window_vs_len=%s' % ('longer' if i['n'] > nr else 'fits')]
+    if len(i['sizes']) > 1:
+        flat = k != 'extract' or any(c[0] == 'flat' for c in i['cfgs'])
+        if flat:
+            out += ['files.given_in_sorted_name_order=%s' % _lex_sorted(i.get('names'), len(i['sizes']), 'raw%d.dat' if k == 'model' else 'f%d.bin'),
+                    'files.paths_as=' + (i.get('pkind') or 'path')]
+    out.append('channels=%s' % ('1-4' if i['nc'] <= 4 else '5-64' if i['nc'] <= 64 else '65+'))
     if obs[0] == 'crash':
         out.append('crash=' + obs[1])
         return out
@@ -1067,6 +1309,11 @@ def dist(case, obs):
         if k == 'store':
             out.append('store.query_repeats=%s' % (len(set(i['q_ids'])) < len(i['q_ids'])))
             out.append('store.query_sorted=%s' % (i['q_ids'] == sorted(i['q_ids'])))
+            out.append('store.ids_increasing=%s' % (i['ids'] == sorted(i['ids'])))
+            out.append('store.max_id=%s' % ('<=64' if max(i['ids']) <= 64 else '<2^16' if max(i['ids']) < 65536 else '>=2^16'))
+            rows = [[c for c in r if c >= 0] for _, r in i['spikes']]
+            out.append('store.rows_increasing=%s' % all(r == sorted(r) for r in rows))
+            out.append('store.row_ids_large_vs_width=%s' % any(r and max(r) + 1 > 8 * i['w'] for r in rows))
     return out
 
 
@@ -1088,6 +1335,9 @@ def _shrink_model(case):
     def mk(**kw):
         j = dict(i)
         j.update(kw)
+        for key in ('names', 'pkind'):
+            if j.get(key, 0) is None:
+                del j[key]
         return {'kind': 'model', 'inp': j}
     st = i.get('store')
     nr = sum(i['sizes'])
@@ -1112,6 +1362,12 @@ def _shrink_model(case):
         yield mk(samples=i['samples'][:-1])
     if len(i['sizes']) > 1:
         yield mk(sizes=[nr])
+    if len(i['sizes']) > 2:
+        yield mk(sizes=i['sizes'][:-2] + [i['sizes'][-2] + i['sizes'][-1]])
+    if i.get('pkind'):
+        yield mk(pkind=None)
+    if i.get('names'):
+        yield mk(names=None)
     if i.get('extra', 0):
         yield mk(extra=0, cmrot=0)
     if i.get('offset', 0):
@@ -1152,8 +1408,18 @@ def shrink(case):
     def mk(**kw):
         j = dict(i)
         j.update(kw)
+        for key in ('names', 'pkind'):
+            if j.get(key, 0) is None:
+                del j[key]
         return {'kind': k, 'inp': j}
     nr = sum(i['sizes'])
+    # default file names / default kind of path argument; the last two files merged
+    if i.get('pkind'):
+        yield mk(pkind=None)
+    if i.get('names'):
+        yield mk(names=None)
+    if len(i['sizes']) > 2 and i.get('backend', 'flat') != 'cbin':
+        yield mk(sizes=i['sizes'][:-2] + [i['sizes'][-2] + i['sizes'][-1]])
     # fewer configurations
     if k == 'extract' and len(i['cfgs']) > 1:
         for d in range(len(i['cfgs'])):
